@@ -36,8 +36,10 @@ type Cplx struct{ Re, Im *smt.Term }
 
 type SymStr struct {
 	B      []*smt.Term // one BV8 term per byte
-	Opaque bool        // contents unknown (formatted from symbolic data); only concat/panic may consume it
+	Opaque bool        // contents partly unknown (formatted from symbolic data)
 	Note   string
+	Segs   []Value   // for opaque strings: known segments (string / non-opaque *SymStr) and nil = unknown text
+	LenT   *smt.Term // cached symbolic length of an opaque string
 }
 
 type Struct []Value
